@@ -1469,6 +1469,16 @@ def adev_family():
     @expectation
     def reparam_then_reinforce(mu):
         return (normal_reparam(mu, 1.0) - normal_reinforce(mu, 1.0)) ** 2
+    # a sampling site inside a cond branch and the first site after the cond
+    @expectation
+    def cond_reparam_then_reparam(mu):
+        y = jax.lax.cond(mu > 0, lambda: normal_reparam(mu, 1.0), lambda: normal_reparam(mu, 2.0))
+        return (y - normal_reparam(mu, 1.0)) ** 2
+
+    @expectation
+    def cond_reinforce_then_reinforce(mu):
+        y = jax.lax.cond(mu > 0, lambda: normal_reinforce(mu, 2.0), lambda: normal_reinforce(mu, 1.0))
+        return (y - normal_reinforce(mu, 1.0)) ** 2
     if "MvNormalREPARAM" in OB:           # the recorded known finding
         from genjax.adev import mv_normal_reparam
 
@@ -1481,7 +1491,9 @@ def adev_family():
         return
     keys = jrand.split(jrand.key(2), 3000)
     for name, prog, arg, want in (("two flip_reinforce sites", two_reinforce_flips, 0.5, 0.5), ("two normal_reinforce sites", two_reinforce_normals, 0.3, 2.0),
-                                  ("two normal_reparam sites", two_reparam_normals, 0.3, 2.0), ("normal_reparam then normal_reinforce", reparam_then_reinforce, 0.3, 2.0)):
+                                  ("two normal_reparam sites", two_reparam_normals, 0.3, 2.0), ("normal_reparam then normal_reinforce", reparam_then_reinforce, 0.3, 2.0),
+                                  ("normal_reparam inside a cond branch, then normal_reparam", cond_reparam_then_reparam, 0.3, 2.0),
+                                  ("normal_reinforce inside a cond branch, then normal_reinforce", cond_reinforce_then_reinforce, 0.3, 5.0)):
         m = float(jnp.mean(jax.vmap(lambda k: prog.jvp_estimate(k, Dual(arg, 1.0)).primal)(keys)))
         if abs(m - want) > 0.15 * max(1.0, want):
             fail("ADEV: consecutive sampling sites do not draw independent randomness (mean of the program value is off)",
@@ -1749,7 +1761,7 @@ def selection_family():
 
 FAMILIES = [
     (("C19.Mask.", "Mask._or_idx"), mask_algebra_family), (("C18.", ".AndSel.", ".OrSel.", ".ComplementSel."), selection_family), ((".Diff.",), diff_family),
-    (("C30.",), vi_family), (("C29.", "TailCallADEVPrimitive"), adev_family), (("C28.", "sample_momenta"), hmc_family), (("C20.", "FlagOp", "multi_switch", "tree_choose"), staging_family), (("C33.",), invalid_subset_family),
+    (("C30.",), vi_family), (("C29.", "TailCallADEVPrimitive", "eval_jaxpr_adev"), adev_family), (("C28.", "sample_momenta"), hmc_family), (("C20.", "FlagOp", "multi_switch", "tree_choose"), staging_family), (("C33.",), invalid_subset_family),
     (("C38.",), derived_family), (("C36.",), stateful_family), (("C09.", "incremental"), incremental_family), (("C04.",), key_family), (("C21.",), pytree_family), (("C25.", "Marginal"), marginal_family), (("C27.", "Rejuvenate"), rejuvenate_family), (("C31.",), time_travel_family), (("C17.",), choice_map_family), (("C26.",), smc_family),
     (("MaskCombinator", "MaskTrace"), mask_family), (("Distribution", "ExactDensity", "C24."), distribution_family),
     (("Dimap",), dimap_family), (("Switch", ".or_else.", ".mix."), switch_family), (("Vmap", "repeat"), vmap_family),
